@@ -66,4 +66,14 @@ img[off:off + 2] = struct.pack("<H", 0x8000 | ((hdr & 0x7FFF) - 4))
 (OUT / "d28_slink_ext_truncated.sqfs").write_bytes(bytes(img))
 ino = struct.pack("<HHHHII", 10, 0o777, 0, 0, 5, 3) + struct.pack("<II", 1, 6) + b"target"        # no xattr field
 (OUT / "d28_inode_slink_ext.script").write_text("# extended symlink inode without its xattr index\ninode 4096 " + ino.hex() + "\n")
+# seeded C05-a1: extended directory inode whose (single) index entry needs exactly one byte more than the index buffer holds
+def dir_ext(sizes):
+    b = struct.pack("<HHHHII", 8, 0o755, 0, 0, 5, 1) + struct.pack("<IIIIHHI", 2, 3, 0, 0, len(sizes), 0, 0xFFFFFFFF)
+    for sz in sizes:
+        b += struct.pack("<III", 0, 0, sz) + bytes(0x41 + i % 26 for i in range(sz + 1))
+    return b
+(OUT / "a1_dir_ext_exact_fit.script").write_text("\n".join([
+    "# seeded C05-a1: read_inode_dir_ext, an index entry that needs exactly one byte more than the index buffer has left",
+    "# (name lengths 117, 245, 501: 12 + size + 1 = 128 / 256 / 512 + 1); the tree must answer ok, no sanitizer report"] +
+    ["inode 4096 " + dir_ext([n - 1]).hex() for n in (117, 245, 501, 116, 118)]) + "\n")
 print("corpus written:", sorted(p.name for p in OUT.iterdir()))
